@@ -113,7 +113,10 @@ def monitor(ex, final):
                 continue
             if types and all(t == 6 for t in types):
                 continue
-            # a poll answer holds everything queued at that moment
+            # a poll answer holds everything queued at that moment - up to the 16 packets one
+            # payload may carry (C02); what did not fit comes with the next poll, in order
+            if len(types) == 16:
+                continue
             for tag in p._sent_done:
                 g = seen.get(tag)
                 if g is not None and g['t'] <= p.t_end:
@@ -172,7 +175,7 @@ def loss_context(ex, s, x):
 
 PROFILE = {
     'weights': {'open': 3, 'poll': 5, 'post': 1, 'probe_step': 6, 'ws_send': 1, 'ws_close': 1,
-                'ws_fail': 1, 'pong': 1, 'app_send': 8, 'advance': 3},
+                'ws_fail': 1, 'pong': 1, 'app_send': 8, 'app_burst': 1, 'advance': 3},
     'max_sessions': 3,
     'packet_kinds': [('msg', 4), ('pong', 2), ('upgrade', 1)],
     'post_modes': [('pkts', 1)],
@@ -195,6 +198,9 @@ def summarize(ex):
         if any(x['upg_state'] == 'open' for x in s.app_sent):
             nt = True
             cls.append('send-during-upgrade')
+        if any(a['op'] == 'app_burst' and a['s'] == s.ord for a in ex.actions):
+            nt = True
+            cls.append('burst-of-15..40-sends')
         if any(p._overlaps for p in s.polls):
             nt = True
             cls.append('overlapping-polls')
